@@ -34,35 +34,35 @@ CHECKS = {
     ),
     "C13": (
         "exploration",
-        "Histories inside one forked process: one invocation over many files, 2-4 invocations with different configurations, one PyMarkdownApi object reused, histories containing a contained fault. Oracle: each operation == the same operation alone in a pristine process, each file of a multi-file run == that file alone. Quick tier additionally enumerates ALL ordered pairs of the hand-written carrier pool (scan and fix) as adjacent files of chain invocations; thorough does so for the whole 800-document pool; 'dirty' chains cut every carrier short mid-dispatch (token, line, provider read) with an injected exception, 'sweep' chains do so at every k-th callback ordinal, 'natural' chains use documents that make the parser fail by itself; a third of the chains run under a configuration that makes otherwise dormant per-file fields observable; for dirty/sweep chains the recorded callback trace of the following document (incl. line numbers) is compared with its solo trace as well as its output.",
+        "Histories inside one forked process: one invocation over many files, 2-4 invocations with different configurations, one PyMarkdownApi object reused, histories containing a contained fault. Oracle: each operation == the same operation alone in a pristine process, each file of a multi-file run == that file alone. Quick tier additionally enumerates ALL ordered pairs of the hand-written carrier pool (scan and fix) as adjacent files of chain invocations; thorough does so for the whole 800-document pool; 'dirty' chains cut every carrier short mid-dispatch (token, line, provider read) with an injected exception, 'sweep' chains do so at every k-th callback ordinal, 'natural' chains use documents that make the parser fail by itself; a third of the chains run under a configuration that makes otherwise dormant per-file fields observable; 'first-construct' chains put 94 tiny followers whose first element consults per-file state behind every abort ordinal of 30 carriers (all carriers in the thorough tier); for dirty/sweep/first-construct chains the recorded callback trace of the following document (incl. line numbers) is compared with its solo trace as well as its output.",
         "deterministic simulation: seeded history exploration + exhaustive ordered-pair chains, differential against pristine-process reference executions",
         "4.C13",
         "Reference executions are the same code in a pristine process, so document-dependent parser/rule bugs cancel out; a carry-over that needs a document shape outside the pool is not found.",
     ),
     "C14": (
         "exploration",
-        "Call logs of recording rules (three probe plugins at first/middle/last dispatch position, scan-only or fix-capable at seeded levels, one possibly disabled; plus recorded built-in rules) are checked against a reference automaton (START, every token of the parser's stream in order, every line with exact text and number, COMPLETE, each exactly once; fix sub-passes of the same shape; disabled rule receives nothing). Expected tokens/lines are taken at other seams of the same execution (parser return value, bytes at open time); fix sub-passes are additionally compared with what a pristine scan of the same bytes delivers (token stream incl. pragma token rule). Disabling is exercised by id, name, wildcard, configuration file and extra --config; same-file histories (a file reached again through a symlink, scan after fix) use snapshots taken at operation start.",
+        "Call logs of recording rules (three probe plugins at first/middle/last dispatch position, scan-only or fix-capable at seeded levels, one possibly disabled; plus recorded built-in rules) are checked against a reference automaton (START, every token of the parser's stream in order, every line with exact text and number, COMPLETE, each exactly once; fix sub-passes of the same shape; disabled rule receives nothing). Expected tokens/lines are taken at other seams of the same execution (parser return value, the text the parser consumed, the file's bytes at operation start); sub-passes are delimited by file reads and by START-after-COMPLETE; fix sub-passes are additionally compared with what a pristine scan of the same bytes delivers (token stream incl. pragma token rule). Disabling is exercised by id, name, wildcard, configuration file and extra --config; same-file histories (a file reached again through a symlink, scan after fix) use snapshots taken at operation start.",
         "deterministic simulation: recorded callback history checked against a reference automaton",
         "4.C14",
         "Fix-mode pass participation is not modelled (a sub-pass may be empty or a bare START); in fix passes line text is piped through fixers so only count and numbering are judged there.",
     ),
     "C15": (
         "fault_enumeration",
-        "Per seeded workload (1-5 files, scan/fix, with/without --continue-on-error) faults are taken from the sites its dry run reached: exception at rule callbacks (raise / run-then-raise), parser failure before parsing and at provider reads, undecodable file at each position, process kill (incl. after-open truncation and k-byte prefix) and OS errors at every audited file-system step of a fix incl. between emulated copy chunks, kills at rule-dispatch/parser sites, KeyboardInterrupt at the same sites, sticky (repeating) OS errors, faults at write/flush/close of every written file (write-proxy seam), two faults per run, CLI and API, hard-linked inputs, single-file-system and cross-device (EXDEV) worlds, chains where the fault is followed by further files. Thorough tier enumerates reached fs sites x actions, callback kinds x first/middle/last, parser calls and file positions per workload (capped at 120 faults per workload, seeded choice beyond that). Oracle: exit = system error, file named, others == 'failing file absent' run, every file in {original, fully fixed}, no temp files.",
+        "Per seeded workload (1-5 files, scan/fix, with/without --continue-on-error) faults are taken from the sites its dry run reached: exception at rule callbacks (raise / run-then-raise), parser failure before parsing and at provider reads, undecodable file at each position, process kill (incl. after-open truncation and k-byte prefix) and OS errors at every audited file-system step of a fix incl. between emulated copy chunks, kills at rule-dispatch/parser sites, KeyboardInterrupt at the same sites, sticky (repeating) OS errors, faults at write/flush/close of every written file (write-proxy seam), two faults per run, CLI and API, hard-linked inputs, single-file-system and cross-device (EXDEV) worlds, chains where the fault is followed by further files, and a standard-input shape (scan-stdin / scan_string: faults at callbacks, parser, provider reads, every step of the spool file, undecodable input). Thorough tier enumerates reached fs sites x actions, callback kinds x first/middle/last, parser calls and file positions per workload (capped at 120 faults per workload, seeded choice beyond that). Oracle: exit = system error, file named, others == 'failing file absent' run, every file in {original, fully fixed}, no temp files.",
         "deterministic simulation: per-workload fault-site enumeration with kill / OS-error / exception injection, differential oracle",
         "4.C15",
         "Process-crash model (completed syscalls durable; no power-loss model). Kill points at audited events and between emulated copy chunks; a kill inside one write is represented by synthesised truncated / prefix states.",
     ),
     "C16": (
         "exploration",
-        "One document through every entry point, each in a pristine process: file scan, scan-stdin over a simulated stream with seeded short reads (splits inside multi-byte characters and between CR and LF), scan_string, scan_path, in-place fix vs fix_string, rule selections expressed both as flags and repeated --set / API calls; again with each diagnostics option, incl. multi-file runs with a contained failure under --continue-on-error; under UTF-8 and legacy C locale templates. Failure tuples, fixed text (newline-normalised), exit status must agree; spool files must be gone.",
+        "One document through every entry point, each in a pristine process: file scan, scan-stdin over a simulated stream with seeded short reads (splits inside multi-byte characters and between CR and LF), scan_string, scan_path, in-place fix vs fix_string, rule selections expressed both as flags and repeated --set / API calls; again with each diagnostics option, incl. multi-file runs with a contained failure under --continue-on-error, and the same contained failure met through the file and the stdin entry point; under UTF-8 and legacy C locale templates. Failure tuples, fixed text (newline-normalised), exit status must agree; spool files must be gone.",
         "deterministic simulation: simulated stdin stream + locale classes, differential across entry points",
         "4.C16",
         "Under the C locale the stdin path is compared for ASCII documents only. Log lines are ignored, everything else must be identical.",
     ),
     "C18": (
         "exploration",
-        "Scenarios constructed to land in each outcome category in each listed way (clean/failing/fixable files, sub-commands, missing/ineligible paths, bad arguments, broken and corrupted configuration files, injected rule/parser faults also in a later file, undecodable files, mixtures across 2-5 files, sub-commands under a broken configuration), scheme selected by flag / --set / .pymarkdown JSON / YAML / pyproject.toml / --config / absent / flag together with a conflicting configuration value. Expected category is computed from construction + solo reference facts + injected faults, never from the run's output, and looked up in the table copied from the user guide.",
+        "Scenarios constructed to land in each outcome category in each listed way (clean/failing/fixable files, sub-commands, missing/ineligible paths, bad arguments, broken and corrupted configuration files, injected rule/parser faults also in a later file, undecodable files, mixtures across 2-5 files, sub-commands under a broken configuration, application errors of a document on standard input), scheme selected by flag / --set / .pymarkdown JSON / YAML / pyproject.toml / --config / absent / flag together with a conflicting configuration value. Expected category is computed from construction + solo reference facts + injected faults, never from the run's output, and looked up in the table copied from the user guide.",
         "deterministic simulation: constructed outcome categories incl. injected faults vs documented table model",
         "4.C18",
         "Outcomes the table does not mention are not judged (pragma-error documents in success scenarios, fix runs that change nothing over unfixable failures, injected OS errors).",
